@@ -685,6 +685,26 @@ example : scopeWitnessCheck (parseString .document Env.fresh (renderTokens scope
   rw [e, build_eq_buildE]
   decide +kernel
 
+/-- … and the frames of `p:b` read off the text by `C17_scope_frames_text`: a chain of spelled elements whose
+    start-tag declarations are `[p ↦ w]`, `[p ↦ u]`, the innermost one written with the local name `b`. -/
+example : ∃ p, parseString .document Env.fresh (renderTokens scopeWitness) = .ok p ∧
+    ∃ sns chain, WellNsDoc sns ∧
+      NSNode.tokens.tokensList sns = dropDecls (lexMode .document (renderTokens scopeWitness)).1 ∧
+      NsPath sns chain ∧ (chainFrames chain ++ [[([], [])], [(['x', 'm', 'l'], xmlNsUri)]]).take 2 =
+        [[(['p'], ['w'])], [(['p'], ['u'])]] ∧
+      ∃ e, chain.getLast? = some e ∧ e.nameLoc = ['b'] := by
+  have hc : scopeWitnessCheck (parseString .document Env.fresh (renderTokens scopeWitness)) = true := by
+    have e : lexMode .document (renderTokens scopeWitness) = (placeTokens 0 scopeWitness, none) :=
+      lexDocument_render scopeWitness (by decide)
+    unfold parseString
+    rw [e, build_eq_buildE]
+    decide +kernel
+  obtain ⟨p, hp, ⟨id, ks, hat, hloc⟩, hfr⟩ := scopeWitnessCheck_spec hc
+  have hp' : parseString .document Interner.new.env (renderTokens scopeWitness) = .ok p := by
+    rw [interner_new_env]; exact hp
+  obtain ⟨sns, chain, hw, htok, _, h2, h3, e, he, hl⟩ := C17_scope_frames_text Interner.Reachable.new hp' hat
+  exact ⟨p, hp, sns, chain, hw, htok, h2, by rw [← h3]; exact hfr, e, he, by rw [hl, hloc]⟩
+
 /-- C17_slice_comment: the `Comment` span slices to the comment's body AS WRITTEN (`w`); the node's
     value is its line-end normalisation (`content.replace("\r\n", "\n").replace('\r', "\n")`). -/
 theorem C17_slice_comment {m : Mode} {env : Env} {s : Str} {p : Parsed} (h : parseString m env s = .ok p)
